@@ -1142,3 +1142,17 @@ def r6(cx):
 # --- explanation addendum (generated catalogue in DESIGN.md reads RS.explanation)
 RS.explanation += ' Added later: the `--` separator test of both typeset listings covers every option prefix of the typeset parser (R4c); the function listing must know the reserved words (R4d, open finding); the alias listing must quote the joined word (R4e).'
 RS.explanation += ' Words spelled like reserved words, which the quoter leaves bare, are accepted by the parser where listings put them: in array_values every Token(_) edge stores the word as an element, and in simple_command a Token ends the command unconsumed only on the result.is_empty() edge (R6).'
+
+
+# ---------------------------------------------------------------------------------------
+# added after seed wave 4 (C07-s7 = C06-s5 seen from the listing side): `typeset -fp` prints function bodies with the Display
+# implementation of the syntax tree, so the printer clauses of C06 are clauses of "the listing can be read back" as well
+from rules.C06 import r5 as _c06_keyword_first_word, r3b as _c06_redir_before_keyword
+from engine import Rule
+RS.rules.append(Rule('C07.R7', 'K-TABLE', 'a function listing (`typeset -fp`) is printed by Display of the syntax tree: a simple command whose first word is '
+                     'spelled like ANY reserved word - the clause delimiters then/do/done/fi/elif/else/esac/} included - is printed with its '
+                     'redirections first, otherwise `f() { </dev/null fi x; }` is listed as `fi x </dev/null` and cannot be read back (C06.R5)',
+                     _c06_keyword_first_word))
+RS.rules.append(Rule('C07.R7b', 'K-GUARD', 'function listing: redirections are moved in front of a keyword-spelled command name whatever its length (C06.R3b)',
+                     _c06_redir_before_keyword))
+RS.explanation += ' Function listings are printed by Display: the keyword clauses of the printer are shared with C06 (R7 = C06.R5, R7b = C06.R3b).'
